@@ -62,12 +62,25 @@ Explains(evs, k, m) ==
                   /\ pf # 0 => LET f == evs[pf].r.p IN r.p - f <= Tol(sm) /\ f - r.p <= Tol(sm)
       [] OTHER -> FALSE
 
+\* machine layer on the traced inputs: must agree with the definition layer (otherwise the
+\* specification itself is inconsistent: TLC error, exit 2 -- never a VIOLATION)
+MachineAgrees(m, c) ==
+    CASE c.op = "viterbi"  -> Assert(MachineViterbi(m, c.a.obs).p = MaxNum(m, c.a.obs), "Viterbi machine # path maximum")
+      [] c.op = "forward"  -> Assert(MachineForward(m, c.a.obs) = SumNum(m, c.a.obs), "forward machine # path sum")
+      [] c.op = "backward" -> Assert(MachineBackward(m, c.a.obs) = SumNum(m, c.a.obs), "backward machine # path sum")
+      [] OTHER -> TRUE
+\* an accepted Viterbi path that is not the one the machine layer (tie-breaks of the code) takes
+Drift(m, e) == e.c.op = "viterbi" /\ e.r.path # MachineViterbi(m, e.c.a.obs).path
+
 Init == run \in 1..Len(Rec) /\ idx = 0 /\ ok = TRUE
 Next ==
     /\ ok /\ idx < Len(Rec[run].ev)
     /\ LET good == Explains(Rec[run].ev, idx + 1, Rec[run].cfg)
        IN  /\ ok' = good
-           /\ IF good THEN TRUE ELSE PrintT(<<"REJECT", run, idx + 1>>)
+           /\ MachineAgrees(Rec[run].cfg, Rec[run].ev[idx + 1].c)
+           /\ IF good
+              THEN IF Drift(Rec[run].cfg, Rec[run].ev[idx + 1]) THEN PrintT(<<"DRIFT", run, idx + 1>>) ELSE TRUE
+              ELSE PrintT(<<"REJECT", run, idx + 1>>)
     /\ idx' = idx + 1
     /\ UNCHANGED run
 Spec == Init /\ [][Next]_vars
